@@ -1341,6 +1341,7 @@ func TestC06(t *testing.T) {
 		"node rotation w-first; instance scale/translation swapped; texture extension not declared; light position component dropped; JSON chunk padded with zeros; BIN chunk length unpadded; mesh data cache ignored; " +
 		"material table never matching; base64 payload truncated; point mode omitted; joints written as float; each of the repair's comparisons reverted. A correct alignment repair (pad to 4 bytes after the indices) passes without the known finding.")
 	vh.Drive(t, vh.Spec[Case]{Name: "scene", Quick: 60000, Thorough: 1200000, Gen: genCase, Run: runCase})
+	vh.Drive(t, vh.Spec[vh.Conc[Case]]{Name: "concurrent-writers", Quick: 1600, Thorough: 40000, Gen: vh.GenConc(genCase), Run: vh.RunConc(runCase), Repeat: 20})
 }
 
 func FuzzC06(f *testing.F) {
